@@ -5,6 +5,7 @@
    vol <tank> <level>                                                    -> <volume>
    lvl <tank> <attr> <rel> <thr> <head> <demand|none> <last>             -> <T|F> <back> <last'> <raised 0|1>
    val <rel> <cur> <thr>                                                 -> T|F
+   stat <kind> <user> <internal>                                         -> <status>        (the `status` property)
    tctl <tank> <htol> <n> {<id> <kind> <cv> <startIsTank> <other>}*n     -> link,value,rel,thr,relOther|-,other|-,prio,pre ; ...
    links <n> {<kind> <user> <internal> <setting>}*n                      -> ok      (current link state)
    track <n> {<link> <S|V>}*n                                            -> ok      (registered tracker targets)
@@ -212,6 +213,10 @@ def handle (d : DState) (line : String) : DState × String :=
   | ["val", r, cur, th] =>
     match parseRel r, parseRat cur, parseRat th with
     | some r, some cur, some th => (d, if evalValue r cur th then "T" else "F")
+    | _, _, _ => (d, "bad-op")
+  | ["stat", k, u, i] =>
+    match parseKind k, parseRat u, parseRat i with
+    | some k, some u, some i => (d, showRat (status k u i))
     | _, _, _ => (d, "bad-op")
   | "tctl" :: t :: htol :: n :: rest =>
     match t.toNat? >>= d.tank?, parseRat htol, n.toNat? with
